@@ -11,6 +11,8 @@
     attrs_site_partial attrs_site_none_removes attrs_site_others_untouched attrs_blank_dropped
     script_text_is_raw div_text_is_escaped attr_name_not_escaped pre_keeps_whitespace div_normalises_whitespace
     text_cr_not_recovered_xml attr_lf_not_recovered_xml control_char_not_wellformed_xml
+    cache_unobservable noescape_cleared_by_end site_after_end_is_escaped escaping_by_enclosing_elements
+    two_scripts_then_site_escaped empty_script_keeps_escaping
 -/
 import Genshi.Lemmas.Subst
 import Genshi.Lemmas.SubstTmpl
@@ -19,6 +21,7 @@ import Genshi.Lemmas.SubstFmt
 import Genshi.Lemmas.SubstNonInt
 import Genshi.Lemmas.SubstSplice
 import Genshi.Lemmas.SubstNest
+import Genshi.Lemmas.SubstCache
 namespace Genshi.Props.C01
 open Genshi.Escape Genshi.Str Genshi.Subst
 
@@ -619,6 +622,86 @@ theorem div_normalises_whitespace :
 theorem attr_name_not_escaped :
     serialize .xml false [.start ['a'] [(['x', '>', '<', 'b'], ['1'])], .end_ ['a']]
       = ['<', 'a', ' ', 'x', '>', '<', 'b', '=', '"', '1', '"', '/', '>'] := by
+  decide
+
+/-! ## the serializers' event cache and the `noescape` flag of `HTMLSerializer`
+
+  `serialize` (all theorems above) is the loop without the per-render event cache; `serializeC` is
+  the loop as it is written, with the cache and with the flag kept in the cache-hit branch as well
+  as in the uncached branches. -/
+
+/-- The event cache is unobservable on START / END / TEXT streams: for every stream, method and
+    whitespace setting the loop with its cache writes what the loop without one writes (raw text
+    bypasses the cache; the flag is kept on a cache hit exactly as on a miss). -/
+theorem cache_unobservable (m : Method) (strip : Bool) (evs : List Ev) :
+    serializeC m strip evs = serialize m strip evs :=
+  serializeC_eq_serialize m strip evs
+
+/-- After an END event the flag is `false`, whatever was written before it, whatever the flag was
+    and whatever the cache holds: what follows an end tag is written as at the start of a render. -/
+theorem noescape_cleared_by_end (m : Method) (c : Cache) (hc : CacheOk m c) (ne : Bool)
+    (pre : List Tok) (t : Subst.Name) (rest : List Tok) :
+    serToksC m c ne (pre ++ .close t :: rest) = serToks m ne (pre ++ [.close t]) ++ serToks m false rest := by
+  rw [serToksC_eq_serToks m _ c ne hc]
+  have : pre ++ .close t :: rest = (pre ++ [.close t]) ++ rest := by simp
+  rw [this, serToks_append, flagRun_close]
+
+/-- Hence a not-safe value in text position directly after any end tag, or after further start tags
+    of ordinary elements, is escaped — however many raw-text elements were written (and cached)
+    before it. -/
+theorem site_after_end_is_escaped (m : Method) (c : Cache) (hc : CacheOk m c) (ne : Bool)
+    (pre : List Tok) (t : Subst.Name) (opens : List (Subst.Name × List (Subst.Name × List Char)))
+    (hopens : ∀ p ∈ opens, (noescapeElems m).contains p.1 = false) (v : List Char) (rest : List Tok) :
+    serToksC m c ne (pre ++ .close t :: (opens.map fun p => Tok.open p.1 p.2) ++ .text v false :: rest) =
+      serToks m ne (pre ++ [.close t]) ++ (opens.flatMap fun p => emitOpen m p.1 p.2) ++ emitText m v ++
+        serToks m false rest := by
+  have h := noescape_cleared_by_end m c hc ne pre t ((opens.map fun p => Tok.open p.1 p.2) ++ .text v false :: rest)
+  simp only [List.append_assoc, List.cons_append] at h ⊢
+  rw [h]
+  congr 1
+  clear h
+  induction opens with
+  | nil => simp [serToks]
+  | cons p ps ih =>
+    have hp := hopens p List.mem_cons_self
+    simp only [List.map_cons, List.cons_append, serToks, hp, Bool.or_false, List.flatMap_cons, List.append_assoc]
+    rw [ih (fun q hq => hopens q (List.mem_cons_of_mem _ hq))]
+
+/-- Which text is escaped depends on the enclosing elements only: for a stream whose raw-text
+    elements have no element children, the loop (cache, flag) writes what `serEncl` writes, which
+    has no flag — a plain text is raw exactly when the innermost open element is `script`/`style`
+    under html. -/
+theorem escaping_by_enclosing_elements (m : Method) (toks : List Tok) (h : rawLeafGo m [] toks = true) :
+    serToksC m [] false toks = serEncl m [] toks := by
+  rw [serToksC_eq_serToks m _ [] false (cacheOk_nil m)]
+  exact serToks_eq_serEncl m toks [] (by simp [stackOk]) h
+
+def scriptName : Subst.Name := ['s', 'c', 'r', 'i', 'p', 't']
+
+/-- two identical `script` elements (the second START, TEXT-free END are served from the cache), then a
+    hostile value in text position: escaped -/
+theorem two_scripts_then_site_escaped :
+    serializeC .html false [.start ['r'] [], .start scriptName [], .text ['1', '<', '2'] false, .end_ scriptName,
+                            .start scriptName [], .text ['1', '<', '2'] false, .end_ scriptName,
+                            .text ['<', 'b', '>'] false, .end_ ['r']]
+      = ['<', 'r', '>', '<', 's', 'c', 'r', 'i', 'p', 't', '>', '1', '<', '2', '<', '/', 's', 'c', 'r', 'i', 'p', 't', '>',
+         '<', 's', 'c', 'r', 'i', 'p', 't', '>', '1', '<', '2', '<', '/', 's', 'c', 'r', 'i', 'p', 't', '>',
+         '&', 'l', 't', ';', 'b', '&', 'g', 't', ';', '<', '/', 'r', '>'] := by
+  decide
+
+/-- an empty raw-text element (EMPTY event) does not switch escaping off -/
+theorem empty_script_keeps_escaping :
+    serializeC .html false [.start ['r'] [], .start scriptName [], .end_ scriptName, .text ['<'] false, .end_ ['r']]
+      = ['<', 'r', '>', '<', 's', 'c', 'r', 'i', 'p', 't', '>', '<', '/', 's', 'c', 'r', 'i', 'p', 't', '>',
+         '&', 'l', 't', ';', '<', '/', 'r', '>'] := by
+  decide
+
+example : rawLeafGo .html [] (emptyTags [.start ['r'] [], .start scriptName [], .text ['1', '<', '2'] false,
+    .end_ scriptName, .start scriptName [], .text ['1', '<', '2'] false, .end_ scriptName,
+    .text ['<', 'b', '>'] false, .end_ ['r']]) = true := by decide
+example : CacheOk .html [(.close scriptName, emitClose scriptName)] := by
+  intro k v h; simp at h; obtain ⟨rfl, rfl⟩ := h; rfl
+example : rawLeafGo .html [] [.open scriptName [], .open ['b'] [], .close ['b'], .text ['<'] false, .close scriptName] = false := by
   decide
 
 /-! ## non-vacuity -/
